@@ -537,6 +537,7 @@ def run(ctx, rep):
             hooks["self.logger." + lv] = lambda *a: None
         extra = {"__calls__": hooks, "__max_iter__": 2000,
                  "__methods__": {k: v for k, v in methods.items() if k not in ("on_service_added", "on_service_removed", "_recv", "_send")}}
+        extra["__global_lookup__"] = K.module_function_lookup(ctx, rs.module, extra, skip=("time", "brine", "socket", "sys"))
         try:
             MI.call_method(methods["_work"], state, [], extra)
         except MI.Raised as r:
@@ -630,6 +631,7 @@ def run(ctx, rep):
             hooks["self.logger." + lv] = lambda *a: None
         state = {"services": {}, "pruning_timeout": TMO}
         extra = {"__calls__": hooks, "__methods__": {k: v for k, v in methods.items() if k not in ("on_service_added", "on_service_removed")}}
+        extra["__global_lookup__"] = K.module_function_lookup(ctx, rs.module, extra, skip=("time", "brine", "socket", "sys"))
         ref, ref_fired = {}, []
         for op in ops:
             clock[0] = op[0]
